@@ -327,15 +327,32 @@ def main_run(pid: str, tier: str, seed_val: int) -> int:
             for s in range(ns):
                 jobs.append(("hyp", (pid, cname, tier, seed_val, s, per, disabled)))
 
+    # ProcessPoolExecutor (unlike multiprocessing.Pool) notices a worker that died (e.g. killed by the OS)
+    # and fails the run instead of waiting for ever; that is a harness error, never a violation.
+    import concurrent.futures as cf
+
     ctx = mp.get_context("fork")
     results = []
-    with ctx.Pool(NPROC) as pool:
-        asyncs = []
+    limit = float(os.environ.get("VERIF_TIMEOUT") or (2400 if tier == "quick" else 6 * 3600))
+    pool = cf.ProcessPoolExecutor(max_workers=NPROC, mp_context=ctx)
+    try:
+        futs = []
         for kind, a in jobs:
             fn = _enum_worker if kind == "enum" else _worker
-            asyncs.append(pool.apply_async(fn, (a,)))
-        for a in asyncs:
-            results.append(a.get())
+            futs.append(pool.submit(fn, a))
+        for f in futs:
+            results.append(f.result(timeout=max(1.0, limit - (time.time() - t0))))
+        pool.shutdown(wait=True)
+    except cf.TimeoutError:
+        # a time budget hit means "inconclusive", never a violation
+        for proc in list(getattr(pool, "_processes", {}).values()):
+            proc.kill()
+        pool.shutdown(wait=False, cancel_futures=True)
+        print(f"HARNESS-ERROR {pid}: time limit of {limit:.0f}s reached, run inconclusive", file=sys.stderr)
+        return 2
+    except cf.process.BrokenProcessPool as e:
+        print(f"HARNESS-ERROR {pid}: a worker process died ({e})", file=sys.stderr)
+        return 2
 
     errors = [r for r in results if "error" in r]
     if errors:
